@@ -204,6 +204,12 @@ impl Ctx {
         n: u64,
         gener: impl Fn(u64, u64) -> Sc + Sync,
     ) {
+        // debugging aid (not used by registered commands): run one batch only
+        if let Ok(only) = std::env::var("VERIF_ONLY_BATCH") {
+            if only != batch {
+                return;
+            }
+        }
         let t0 = Instant::now();
         let next = AtomicU64::new(0);
         let results: Mutex<Vec<Option<(Sc, RunOutcome)>>> = Mutex::new((0..n).map(|_| None).collect());
